@@ -61,6 +61,9 @@ def gen_plan(rng, cfg, tier):
       t2.append(['advance', rng.choice([0.0, 0.01, 0.5, 3.0])])
       t2.append(['set', rng.choice([1, 10, 1000]), rng.choice([1.0, 10.0, 1000.0])])
     plan['t2ops'] = t2
+    # in carbon exactly one thread changes the limits (the reactor thread, at shutdown)
+    # while another one acquires: with a second thread present, R only acquires
+    plan['ops'] = [op for op in ops if op[0] != 'set']
   return plan
 
 
